@@ -67,6 +67,9 @@ struct Ctl {
     log: RefCell<Vec<CbEvent>>,
     kinds: [Cell<u64>; N_KINDS],
     fired_kind: Cell<u8>,
+    /// sticky: once the armed callback has panicked, every later callback panics too (a user
+    /// accessor that has started failing keeps failing) until `disarm`
+    sticky: Cell<bool>,
 }
 
 thread_local! {
@@ -78,6 +81,7 @@ thread_local! {
         log: RefCell::new(Vec::new()),
         kinds: Default::default(),
         fired_kind: Cell::new(0),
+        sticky: Cell::new(false),
     };
 }
 
@@ -92,9 +96,16 @@ pub fn hit(kind: CbKind, a: Arg, b: Arg) {
             c.log.borrow_mut().push(CbEvent { kind, a, b });
         }
         if n == c.panic_at.get() {
-            c.panic_at.set(u64::MAX);
+            if !c.sticky.get() {
+                c.panic_at.set(u64::MAX);
+            }
             c.fired.set(true);
             c.fired_kind.set(kind as u8);
+            std::panic::panic_any(Injected);
+        }
+        if c.sticky.get() && c.panic_at.get() != u64::MAX && n > c.panic_at.get() {
+            // the accessor keeps failing: if the library calls it again while unwinding (a drop
+            // guard, say) this second panic aborts the process, which the driver reports
             std::panic::panic_any(Injected);
         }
     })
@@ -114,8 +125,19 @@ pub fn arm(n: u64) {
         c.fired.set(false);
     })
 }
+/// as `arm`, but every callback after the n-th panics as well until `disarm`
+pub fn arm_sticky(n: u64) {
+    CTL.with(|c| {
+        c.panic_at.set(n);
+        c.fired.set(false);
+        c.sticky.set(true);
+    })
+}
 pub fn disarm() {
-    CTL.with(|c| c.panic_at.set(u64::MAX))
+    CTL.with(|c| {
+        c.panic_at.set(u64::MAX);
+        c.sticky.set(false);
+    })
 }
 pub fn fired() -> Option<CbKind> {
     CTL.with(|c| {
